@@ -66,4 +66,19 @@ theorem nsiBetweenness_eq_def_full (n : Nat) (a : Adj) (hsym : ∀ x y, a x y = 
   nsiBetweenness_assembly n a w isSrc targets (dist n a)
     (fun j hjt l hl => sweepDiff_eq_contribDef n a hsym w hw isSrc j (ht j hjt) l hl)
 
+/-- the definition's recursions replaced by sums over the enumerated shortest paths -/
+theorem nsiBetweennessDef_getD_enum (n : Nat) (a : Adj) (w : Nat → Rat) (d : DistFn) (isSrc : List Bool)
+    (targets : List Nat) (v : Nat) (hv : v < n) :
+    (nsiBetweennessDef n a w d isSrc targets).getD v 0 = nsiBetweennessEnum n a w d isSrc targets v := by
+  unfold nsiBetweennessDef nsiBetweennessEnum
+  rw [getD_map_range_rat n _ v hv]
+  unfold betwTimesWDef
+  congr 2
+  apply List.map_congr_left
+  intro t _
+  unfold contribDef pairDep
+  by_cases e : v = t
+  · simp [e]
+  · simp only [if_neg e, sigma_eq_sigmaPaths, sigmaThru_eq_paths]
+
 end Pyunicorn.NetBetw
